@@ -195,6 +195,12 @@ impl PutQuery {
     }
 
     fn most_common_error(&self) -> Option<(usize, PutError)> {
+        // 301 and 302 are compare-and-swap errors of BEP_0044 mutable items; for any other
+        // put they are just an error response, never a concurrency error.
+        if !matches!(self.request, PutRequestSpecific::PutMutable(_)) {
+            return None;
+        }
+
         self.errors
             .first()
             .and_then(|(count, error)| match error.code {
